@@ -19,6 +19,7 @@ import WzVerif.Model.Headers
 import WzVerif.Model.Containers
 import WzVerif.Model.Http
 import WzVerif.Gen.Views
+import WzVerif.Gen.ResponseProps
 namespace Wz.Views
 open Wz Hdr PyDict
 
@@ -105,6 +106,12 @@ def dump (c : HS.St) : Str := Http.headerSetToHeader c.headers
 def write (h : HList) (name : Str) (c : HS.St) : HList :=
   if c.set.isEmpty then (if Hdr.contains h name then delKey h name else h)
   else (Hdr.set h name (dump c)).1
+
+/-- the property setter applied to a `HeaderSet` object (`response.vary = view`): a falsy (empty)
+set deletes the header, otherwise `dump_header(view)` is stored; the callback of `view` is not
+touched -/
+def assign (h : HList) (name : Str) (c : HS.St) : HList × Except String Unit :=
+  if c.set.isEmpty then (delKey h name, .ok ()) else Hdr.set h name (dump c)
 
 end SetView
 
@@ -237,6 +244,10 @@ def setValue (d : St) (key : Str) (v : Option Str) : Out St Unit :=
 
 def delValue (d : St) (key : Str) : Out St Unit :=
   if has d key then ⟨erase d key, true, .ok ()⟩ else ⟨d, false, .ok ()⟩
+
+/-- the property setter applied to a `ContentSecurityPolicy` object -/
+def assign (h : HList) (name writeName : Str) (d : St) : HList × Except String Unit :=
+  if d.isEmpty then (delKey h name, .ok ()) else Hdr.set h writeName (dump d)
 
 inductive Op where
   | attr (key : Str) (v : Option Str)
@@ -407,6 +418,60 @@ def parseAge (v : Str) : Option Int :=
   else match CC.pyInt v with
     | some i => if i < 0 then none else some i
     | none => none
+
+/-! #### the typed properties that are not `header_property` descriptors -/
+
+/-- `utils.get_content_type(mimetype, "utf-8")` -/
+def getContentType (m : Str) : Str :=
+  if "text/".toList.isPrefixOf m || Gen.ResponseProps.charsetMimetypes.contains (String.ofList m) ||
+      "+xml".toList.isSuffixOf m then m ++ "; charset=utf-8".toList
+  else m
+
+/-- `response.mimetype = value` (the getter is `MP.mimetype`) -/
+def mimetypeSet (h : HList) (m : Str) : Hdr.Res Unit := Hdr.set h "Content-Type".toList (getContentType m)
+
+/-- what the `retry_after` getter finds: nothing, a number of seconds (it answers `now + seconds`),
+or a date text handed to `parse_date` -/
+inductive Retry where
+  | none
+  | seconds (i : Int)
+  | date (text : Str)
+deriving Repr, DecidableEq
+
+/-- `Response.retry_after` getter up to the clock and `parse_date` -/
+def retryAfterGet (h : HList) : Retry :=
+  match getKey h "retry-after".toList with
+  | .error _ => .none
+  | .ok v => match CC.pyInt v with
+    | some i => .seconds i
+    | none => .date v
+
+/-- `response.retry_after = value`; `text` is `http_date(value)` for a datetime, `str(value)` otherwise -/
+def retryAfterSet (h : HList) (text : Option Str) : Hdr.Res Unit :=
+  match text with
+  | none => ((if Hdr.contains h "retry-after".toList then delKey h "retry-after".toList else h), .ok ())
+  | some t => Hdr.set h "Retry-After".toList t
+
+def credentialsName : Str := "Access-Control-Allow-Credentials".toList
+
+/-- `Response.access_control_allow_credentials` getter -/
+def credentialsGet (h : HList) : Bool := Hdr.contains h credentialsName
+
+/-- the setter: `isTrue` = the assigned value `is True` -/
+def credentialsSet (h : HList) (isTrue : Bool) : Hdr.Res Unit :=
+  if isTrue then Hdr.set h credentialsName "true".toList else ((popKey h credentialsName (some [])).1, .ok ())
+
+/-- `Response.set_etag(etag, weak)` -/
+def setEtag (h : HList) (etag : Str) (weak : Bool) : Hdr.Res Unit :=
+  match Http.quoteEtag etag weak with
+  | .error e => (h, .error e)
+  | .ok t => Hdr.set h "ETag".toList t
+
+/-- `Response.get_etag()`; `none` = `(None, None)` -/
+def getEtag (h : HList) : Option (Str × Bool) :=
+  match getKey h "ETag".toList with
+  | .ok v => Http.unquoteEtag v
+  | .error _ => none
 
 end Scalar
 
